@@ -449,6 +449,44 @@ def ob_mu(domain):
     return verify(body, check_side=False, timeout_ms=120000)
 
 
+@obligation("mu/switched_direction_non_square", params=[{"switched": sw} for sw in (False, True)], timeout=300,
+            desc="MuChannel with 2 receivers and 1 transmitter (a NON-square link matrix, symbolic path losses) in both link directions: "
+                 "original direction - receiver rx gets link_{rx,0}(x_0); switched direction (set through the MuChannel property, which has to "
+                 "reach every link) - the single receiver gets link_{0,0}(x_0) + link_{1,0}(x_1); each with the response reported for that link")
+def ob_mu_switched(switched):
+    def body(c, it):
+        from pyphysim.channels import multiuser
+        delays = [0, 1]
+        prof = _profile(delays)
+        gen = SymFading(c)
+        mu = it.call(multiuser.MuChannel, [(2, 1), gen, prof])
+        PL = np.empty((2, 1), dtype=object)
+        for i in range(2):
+            PL[i, 0] = c.var("pl%d" % i, "real")
+            c.assume((PL[i, 0] >= 0) & (PL[i, 0] <= 1))
+        it.call(it.getattr(mu, "set_pathloss"), [PL])
+        if switched:
+            it.setattr(mu, "switched_direction", True)
+        goals = [Goal("the direction is reported", bool(it.getattr(mu, "switched_direction")) == switched)]
+        N = 3
+        nin = 2 if switched else 1
+        x = _sig(c, "x", nin, N)
+        out = it.call(it.getattr(mu, "corrupt_data"), [x])
+        nout = 1 if switched else 2
+        goals.append(Goal("one output per receiving end", np.shape(out) == (nout,)))
+        if np.shape(out) != (nout,):
+            return goals
+        irs = [it.getattr(it.call(it.getattr(mu, "get_last_impulse_response"), [rx, 0]), "tap_values_sparse") for rx in range(2)]
+        if switched:
+            spec = _conv_spec(x[0], irs[0], delays, N) + _conv_spec(x[1], irs[1], delays, N)
+            goals.append(Goal("switched: the single receiver gets the superposition of both links", _meq(out[0], spec)))
+        else:
+            for rx in range(2):
+                goals.append(Goal("receiver %d gets its own link applied to the transmitter's signal" % rx, _meq(out[rx], _conv_spec(x[0], irs[rx], delays, N))))
+        return goals
+    return verify(body, check_side=False, timeout_ms=120000)
+
+
 @obligation("su_mimo/pathloss_and_antennas", params=[{"switched": sw} for sw in (False, True)], timeout=300,
             desc="SuMimoChannel(2 antennas) with a symbolic path loss p in [0,1]: every tap is a 2 x 2 matrix of fading samples; the output "
                  "of antenna o is sqrt(p) * sum_i conv(x_i, g) with the UNSCALED taps of link (o, i) (switched direction: (i, o)), the "
